@@ -1,6 +1,7 @@
 import NetVerif.Model.Punycode
 import NetVerif.Gen.C50
 import NetVerif.Proofs.Lemmas.Punycode
+import NetVerif.Proofs.Lemmas.PunycodeString
 /-!
 C50 — IDNA produces canonical A-labels and is idempotent; Punycode encode/decode are inverse.
 
@@ -9,9 +10,12 @@ C50 — IDNA produces canonical A-labels and is idempotent; Punycode encode/deco
   (`Gen.C50`) and proved equal to the model.
 * Digit layer and generalized variable-length integer layer: round trip in both directions for
   every `(delta, bias)`.
-* String level: the full inverse statements are `DecodeEncodeStatement` / `EncodeDecodeStatement`
-  (kept as `def … : Prop`); proved here: the basic-code-point part (`decode_encode_ascii`,
-  `encode_basic_prefix`) — `_partial`.
+* String level: `decode_encode_holds` — `decode (encode s) = s` for every string of at most 1024
+  scalar values (the decoder's output limit), with no further hypothesis: the insertion-order
+  argument of RFC 3492 §6.2/6.3 (`Lemmas/PunycodeString.lean`), including the proof that the
+  decoder's int32 weights never overflow on encoder output (`varint_roundtrip_sharp`).
+  The converse `EncodeDecodeStatement` is still a `def … : Prop`; its per-delta layer is
+  `varint_canonical`, its basic-code-point layer `decode_encode_ascii_partial`.
 * A-label branch of `Profile.process` (Punycode profile, exact model): `alabel_holds` — undecodable
   payloads and payloads decoding to ASCII only (or to nothing) are rejected, whatever `unicode16`.
 * `monitor_sound`: every observation the V-tie monitor accepts satisfies the property clauses.
@@ -190,9 +194,49 @@ def EncodeDecodeStatement : Prop :=
   ∀ a u : List Nat, (∀ c ∈ a, c < 128) → decodeRunes a = some u → (∀ r ∈ u, ValidScalar r) →
     ∃ a', encode [] u = some a' ∧ a'.map lowerAscii = a.map lowerAscii
 
-/-- Partial: the basic-code-point layer. For an all-ASCII string `encode` is `s ++ "-"` (nothing
-for the empty string) and `decode` returns `s`. Missing for the full statement: the
-insertion-order argument for the extended part (the per-delta layer is `varint_roundtrip`). -/
+/-- FULL: decode inverts encode on every string of at most 1024 Unicode scalar values. The encoder
+scans code points in increasing (value, position) order; the invariant `InvI`/`InvO` says that the
+decoder's output is the input restricted to the code points handled so far and that the pending
+delta moves the decoder's `(n, i)` exactly to the next (value, slot); both sides call `adapt` with
+the same `(delta, numpoints, first)`. -/
+theorem decode_encode_holds : DecodeEncodeStatement := by
+  intro s a hs hlen h
+  have hr : ∀ r ∈ s, r ≤ maxRune := fun r hr => (hs r hr).1
+  unfold decode
+  rw [Lemmas.PunycodeString.decodeRunes_encode s a hr hlen h]
+  simp only [Option.map_some, Option.some.injEq]
+  have : ∀ (l : List Nat), (∀ r ∈ l, ValidScalar r) → l.map goRune = l := by
+    intro l hl
+    induction l with
+    | nil => rfl
+    | cons c cs ih =>
+      have hc := hl c (by simp)
+      simp only [List.map_cons]
+      rw [ih (fun r hr => hl r (by simp [hr]))]
+      congr 1
+      unfold goRune
+      unfold ValidScalar at hc
+      rw [if_neg]
+      omega
+  exact this s hs
+
+/-- The same at the level the decoder works on (before `string([]rune)`), for any code points up to
+U+10FFFF (surrogate values included). -/
+theorem decodeRunes_encode (s a : List Nat) (hs : ∀ r ∈ s, r ≤ maxRune) (hlen : s.length ≤ maxOutput)
+    (h : encode [] s = some a) : decodeRunes a = some s :=
+  Lemmas.PunycodeString.decodeRunes_encode s a hs hlen h
+
+/-- Per-delta round trip without any overflow hypothesis on the decoder's weights (`q*w ≤ Q` covers
+every delta of a string of at most 1024 code points). -/
+theorem varint_roundtrip_sharp (bias delta i : Nat) (rest : List Nat)
+    (hq : delta ≤ Lemmas.PunycodeString.Q) (hi : i + delta ≤ maxInt32) :
+    decodeVar bias base i 1 (encodeVar bias base delta ++ rest) = some (i + delta, rest) := by
+  have := Lemmas.PunycodeString.varint_roundtrip_sharp bias base delta i 1 rest 0
+    (by unfold base; rfl) (by intro _; simp) (Nat.le_refl 1) (by simpa using hq) (by simpa using hi)
+  simpa using this
+
+/-- The basic-code-point layer on its own (also holds for ASCII strings longer than 1024). For an
+all-ASCII string `encode` is `s ++ "-"` (nothing for the empty string) and `decode` returns `s`. -/
 theorem decode_encode_ascii_partial (s : List Nat) (hs : ∀ r ∈ s, r < 128) :
     encode [] s = some (if s = [] then [] else s ++ [hyphen]) ∧
     decode (if s = [] then [] else s ++ [hyphen]) = some s :=
@@ -244,6 +288,8 @@ example : encode [] [98, 252, 99, 104, 101, 114] = some [98, 99, 104, 101, 114, 
 example : decode [98, 99, 104, 101, 114, 45, 107, 118, 97] = some [98, 252, 99, 104, 101, 114] := by decide
 example : decodeVar 72 36 0 1 (encodeVar 72 36 745 ++ [7]) = some (745, [7]) := by decide +kernel
 example : undecodableALabel [120, 110, 45, 45, 45] = true := by decide
+/-- "xn--ü-": a non-basic code point in the literal part is a decoding error. -/
+example : undecodableALabel [120, 110, 45, 45, 252, 45] = true := by decide
 example : asciiOnlyALabel [120, 110, 45, 45, 97, 98, 99, 45] = true := by decide
 /-- Former counterexamples ("xn--abc-", "xn--"): now rejected (the partially processed result is still returned). -/
 example : processPunycode false true [120, 110, 45, 45, 97, 98, 99, 45] = ([97, 98, 99], true) := by decide
